@@ -282,7 +282,7 @@ fn refs<T: Pod, X: Dummy>(cur: &VolatileSlice<'_, ()>, env: &mut Env, depth: usi
     }
 }
 
-fn atomic_ref<A: AtomicInteger>(cur: &VolatileSlice<'_, ()>, name: &str, t: &mut Tape, cx: &mut Cx) -> Result<(), String> {
+fn atomic_ref<A: AtomicInteger, T: vm_memory::AtomicAccess<A = A>>(cur: &VolatileSlice<'_, ()>, name: &str, t: &mut Tape, cx: &mut Cx) -> Result<(), String> {
     let pe = Ext::of(cur);
     let sz = size_of::<A>();
     let o = arg(t, pe.len.saturating_sub(sz), pe.ptr);
@@ -302,6 +302,19 @@ fn atomic_ref<A: AtomicInteger>(cur: &VolatileSlice<'_, ()>, name: &str, t: &mut
         Err(_) => {
             cx.label("refused");
         }
+    }
+    // Bytes::load / Bytes::store form the same atomic reference internally: answered only when
+    // the access fits and the address is aligned
+    let aligned = pe.ptr.wrapping_add(o) % align_of::<A>() == 0;
+    if let Ok(v) = cur.load::<T>(o, Ordering::SeqCst) {
+        ensure!(fits && aligned, "load::<{}>({:#x}) on {} bytes at {:#x} was answered although it {}", name, o, pe.len, pe.ptr, if fits { "is misaligned" } else { "does not fit" });
+        ensure!(cur.store::<T>(v, o, Ordering::SeqCst).is_ok(), "store::<{}>({:#x}) refused where load was answered", name, o);
+        cx.label("atomic_load_store");
+    } else if !(fits && aligned) {
+        // SAFETY: T is ByteValued - every bit pattern is a value.
+        let zero: T = unsafe { std::mem::zeroed() };
+        ensure!(cur.store::<T>(zero, o, Ordering::SeqCst).is_err(), "store::<{}>({:#x}) on {} bytes at {:#x} was answered although it {}", name, o, pe.len, pe.ptr, if fits { "is misaligned" } else { "does not fit" });
+        cx.label("atomic_load_store_refused");
     }
     Ok(())
 }
@@ -415,12 +428,12 @@ fn go(cur: &VolatileSlice<'_, ()>, env: &mut Env, depth: usize, t: &mut Tape, cx
         }
         _ => {
             match t.below(6) {
-                0 => atomic_ref::<AtomicU8>(cur, "AtomicU8", t, cx)?,
-                1 => atomic_ref::<AtomicU16>(cur, "AtomicU16", t, cx)?,
-                2 => atomic_ref::<AtomicU32>(cur, "AtomicU32", t, cx)?,
-                3 => atomic_ref::<AtomicU64>(cur, "AtomicU64", t, cx)?,
-                4 => atomic_ref::<AtomicI16>(cur, "AtomicI16", t, cx)?,
-                _ => atomic_ref::<AtomicUsize>(cur, "AtomicUsize", t, cx)?,
+                0 => atomic_ref::<AtomicU8, u8>(cur, "AtomicU8", t, cx)?,
+                1 => atomic_ref::<AtomicU16, u16>(cur, "AtomicU16", t, cx)?,
+                2 => atomic_ref::<AtomicU32, u32>(cur, "AtomicU32", t, cx)?,
+                3 => atomic_ref::<AtomicU64, u64>(cur, "AtomicU64", t, cx)?,
+                4 => atomic_ref::<AtomicI16, i16>(cur, "AtomicI16", t, cx)?,
+                _ => atomic_ref::<AtomicUsize, usize>(cur, "AtomicUsize", t, cx)?,
             }
             go(cur, env, depth + 1, t, cx)
         }
@@ -979,7 +992,7 @@ fn region_body(mem: &vm_memory::GuestMemoryMmap<()>, lay: &Layout, t: &mut Tape,
 pub fn property() -> Property {
     Property {
         id: "C01",
-        rule: "a case = a parent (slice of 0..256 bytes at any alignment inside canaries; slice flush against a PROT_NONE page at either end; mapped region / guest memory) + a chain of up to 8 derivations (subslice, offset, split_at, get_slice, as_volatile_slice, ArrayRef::from, get_ref/get_array_ref/ref_at -> to_slice, aligned_as_ref/mut, get_atomic_ref, from_slice/from_mut_slice, as_bytes/as_slice/as_mut_slice of an object between neighbours) with arguments from {in range, 0, len-1, len, len+1, 2len, 2^32+-k, isize::MAX+-k, usize::MAX-k, pointer-overflowing, uniform}; each successful derivation is followed by a write+read through the new accessor and a comparison of everything outside it; xen build: the same roots over emulated foreign / advance-mapped grant / Unix regions, and chains over regions without a stable host pointer (grant regions mapped on demand) whose extents are tracked logically and judged by the device contents (bytes seen through the accessor's guard = device bytes of exactly that range; a write changes exactly that range); non-trivial = chain depth >= 2, an argument within 1 of a boundary, or an overflowing argument; distinct = decoded (parent, chain)",
+        rule: "a case = a parent (slice of 0..256 bytes at any alignment inside canaries; slice flush against a PROT_NONE page at either end; mapped region / guest memory) + a chain of up to 8 derivations (subslice, offset, split_at, get_slice, as_volatile_slice, ArrayRef::from, get_ref/get_array_ref/ref_at -> to_slice, aligned_as_ref/mut, get_atomic_ref and the atomic load/store of the same type at the same offset (answered only if fitting and aligned), from_slice/from_mut_slice, as_bytes/as_slice/as_mut_slice of an object between neighbours) with arguments from {in range, 0, len-1, len, len+1, 2len, 2^32+-k, isize::MAX+-k, usize::MAX-k, pointer-overflowing, uniform}; each successful derivation is followed by a write+read through the new accessor and a comparison of everything outside it; xen build: the same roots over emulated foreign / advance-mapped grant / Unix regions, and chains over regions without a stable host pointer (grant regions mapped on demand) whose extents are tracked logically and judged by the device contents (bytes seen through the accessor's guard = device bytes of exactly that range; a write changes exactly that range); non-trivial = chain depth >= 2, an argument within 1 of a boundary, or an overflowing argument; distinct = decoded (parent, chain)",
         assumptions: &["fitting requests are not required to succeed here (that is C04's business): only 'does not fit => error' and containment are asserted", "out-of-parent reads are detected by PROT_NONE guard pages (worker crash, attributed by the driver) and by AddressSanitizer in the fuzz tier"],
         subchecks: vec![
             SubCheck { name: "framed", builds: &[Build::Std, Build::Plain], kind: Kind::Random { quick: 60_000, thorough: 3_000_000, max_words: 64 }, run: run_framed },
